@@ -318,6 +318,10 @@ def _per_row_norm(case):
     return "per-row" in OPS[case["op"]]
 
 
+def describe(case):
+    return {"segments": case["nseg"], "history": [OPS[i] for i in case["hist"]], "operation": OPS[case["op"]]}
+
+
 PREDICATES = {}
 
 
